@@ -256,8 +256,10 @@ class JSONSerialization(Serialization):
     @classmethod
     def selector_schema(cls, p, safe=False):
         try:
+            # Every object currently listed (also one admitted later with
+            # check_on_set=False), not only the named ones
             allowed_types = [{'type': cls.json_schema_literal_types[type(obj)]}
-                             for obj in p.objects.values()]
+                             for obj in list(p.objects)]
             schema = {'anyOf': allowed_types}
             schema['enum'] = p.objects
             return schema
